@@ -7,7 +7,7 @@ namespace {
 vh::Outcome run_barrier(const vh::Case& c) {
     reset_case_globals();
     vh::Outcome out;
-    int N = 2 + (c.cfg.size() > 0 ? c.cfg[0] % 4 : 0);          // participants 2..5
+    int N = 1 + (c.cfg.size() > 0 ? c.cfg[0] % 5 : 1);          // participants 1..5 (1: every wait returns at once)
     int G = 1 + (c.cfg.size() > 1 ? c.cfg[1] % 4 : 0);          // generations 1..4
     std::vector<int> drop((size_t)N, 1000);                      // generation at which the participant drops (its last call)
     std::vector<std::vector<int>> pause((size_t)N);
@@ -58,7 +58,7 @@ vh::Outcome run_barrier(const vh::Case& c) {
 vh::Outcome run_latch(const vh::Case& c) {
     reset_case_globals();
     vh::Outcome out;
-    int count = 1 + (c.cfg.size() > 0 ? c.cfg[0] % 4 : 0);
+    int count = c.cfg.size() > 0 ? c.cfg[0] % 5 : 1;            // 0..4 (0: the latch is open from the start)
     // arrivals that are certain to happen without anybody being released first: those before a fiber's first wait
     int free_arrivals = 0;
     for (auto& f : c.fibers) for (auto& op : f) { if (op.code % 3 == 1) break; free_arrivals++; if (op.code % 3 == 2) break; }
@@ -292,8 +292,8 @@ vh::Outcome run_trigger(const vh::Case& c) {
     return out;
 }
 
-vh::GenSpec bspec(bool th) { vh::GenSpec g; g.nfibers = 5; g.max_ops = 4; g.ncodes = 1; g.amax = 8; g.bmax = 4; g.cfg_max = {4, 4}; g.sched_len = th ? 224 : 160; g.aux_len = 32; g.aux_density = 20; return g; }
-vh::GenSpec lspec(bool th) { vh::GenSpec g; g.nfibers = 4; g.max_ops = th ? 5 : 3; g.ncodes = 3; g.amax = 1; g.bmax = 3; g.cfg_max = {4, 2}; g.sched_len = th ? 160 : 112; g.aux_len = 32; g.aux_density = 20; return g; }
+vh::GenSpec bspec(bool th) { vh::GenSpec g; g.nfibers = 5; g.max_ops = 4; g.ncodes = 1; g.amax = 8; g.bmax = 4; g.cfg_max = {5, 4}; g.sched_len = th ? 224 : 160; g.aux_len = 32; g.aux_density = 20; return g; }
+vh::GenSpec lspec(bool th) { vh::GenSpec g; g.nfibers = 4; g.max_ops = th ? 5 : 3; g.ncodes = 3; g.amax = 1; g.bmax = 3; g.cfg_max = {5, 2}; g.sched_len = th ? 160 : 112; g.aux_len = 32; g.aux_density = 20; return g; }
 vh::GenSpec tspec(bool th) { vh::GenSpec g; g.nfibers = 4; g.max_ops = th ? 6 : 5; g.ncodes = 12; g.amax = 1; g.bmax = 3; g.cfg_max = {3, 3}; g.sched_len = th ? 192 : 144; g.aux_len = 40; g.aux_density = 25; return g; }
 
 vh::Register rb("C09", bspec(false), bspec(true), run_barrier,
